@@ -12,6 +12,7 @@ use scrut::config::TestCaseConfig;
 use scrut::executors::bash_runner::BashRunner;
 use scrut::executors::context::ContextBuilder;
 use scrut::executors::executor::Executor;
+use scrut::executors::bash_script_executor::BashScriptExecutor;
 use scrut::executors::stateful_executor::StatefulExecutor;
 use scrut::output::ExitStatus;
 use scrut::testcase::TestCase;
@@ -189,13 +190,21 @@ fn one(id: u64, v: &Value, bash: &Path) -> Value {
         let expr = if detached { ops.join("\n") } else { format!("{}\necho '@@@ {}'\n{}", ops.join("\n"), k + 1, PROBE) };
         tcs.push(TestCase { title: format!("t{}", k + 1), shell_expression: expr, expectations: vec![], exit_code: None, line_number: k + 1, config });
     }
+    // the single-script executor takes ONE configuration: the configured variables of the first test case are the
+    // document's environment, given to every test case (as the test command does with document defaults)
+    let script_exec = v.get("exec").and_then(|x| x.as_str()) == Some("script");
+    if script_exec {
+        let env = tcs[0].config.environment.clone();
+        for tc in tcs.iter_mut() { tc.config.environment = env.clone(); }
+    }
     let refs: Vec<&TestCase> = tcs.iter().collect();
     let ctx = ContextBuilder::default().work_directory(work.clone()).temp_directory(tmp.clone()).file(PathBuf::from("doc.md"))
         .config(DocumentConfig::default_markdown()).build().unwrap_or_else(|e| tool_error(&format!("context: {e}")));
-    let executor = StatefulExecutor::new(BashRunner::stateful_generator(bash));
     let mut obs: Vec<Value> = vec![];
     let mut exec_note = String::new();
-    match guarded(|| executor.execute_all(&refs, &ctx)) {
+    let executed = guarded(|| if script_exec { BashScriptExecutor::new(bash).execute_all(&refs, &ctx) }
+                              else { StatefulExecutor::new(BashRunner::stateful_generator(bash)).execute_all(&refs, &ctx) });
+    match executed {
         Ok(Ok(outputs)) => {
             for (k, o) in outputs.iter().enumerate() {
                 if hist[k]["detached"] == json!(true) || o.exit_code == ExitStatus::Detached {
@@ -240,7 +249,7 @@ fn one(id: u64, v: &Value, bash: &Path) -> Value {
     };
     // give detached processes a moment before the scratch directory disappears
     if hist.iter().any(|t| t["detached"] == json!(true)) { std::thread::sleep(Duration::from_millis(50)); }
-    json!({"ev": "Load", "id": id, "hist": v["hist"], "ref": v["ref"], "obs": obs, "single": single})
+    json!({"ev": "Load", "id": id, "hist": v["hist"], "ref": v["ref"], "obs": obs, "single": single, "exec": if script_exec { "script" } else { "process" }})
 }
 
 /// `shell-replay --vectors F --records OUT`
